@@ -1,6 +1,131 @@
-(* Props/C12.v -- brace- and special-character-aware string primitives obey their algebra. *)
-From Pybtex Require Import Base.Prelude Base.PyChar Base.PyStr Model.BibtexStr Proofs.BibtexStr.
+(* Props/C12.v -- brace- and special-character-aware string primitives obey their algebra.
+   Only statements (each closed by `exact <lemma>`), their assumptions, and Examples
+   showing the hypotheses are met by non-trivial values.  Model: Model/BibtexStr.v
+   (pybtex/bibtex/utils.py); notions the property refers to: Spec/BibtexStrSpec.v. *)
+From Pybtex Require Import Base.Prelude Base.PyChar Base.PyStr Model.BibtexStr Spec.BibtexStrSpec
+  Proofs.BibtexStr.
+
+(* ---- scanning into (token, brace level) pairs ---- *)
+
+(* lossless on balanced input: the token texts concatenate to the string *)
+Theorem scan_lossless : forall s ts, balanced s -> scan s = Ok ts -> concat (map fst ts) = s.
+Proof. exact scan_lossless_lemma. Qed.
+Print Assumptions scan_lossless.
+
+(* the level of every token is the brace depth of the string right after that token
+   (a running count that, on balanced input, never goes negative: it is a nat) *)
+Theorem scan_levels : forall s ts1 t l ts2, balanced s -> scan s = Ok (ts1 ++ (t, l) :: ts2) ->
+  depth_from 0 (concat (map fst ts1) ++ t) = Some l.
+Proof. exact scan_levels_lemma. Qed.
+Print Assumptions scan_levels.
+
+(* scanning never raises a foreign exception: it returns tokens, or the BibTeX error
+   "too many nested braces" -- the latter exactly when some brace opens a level above 100 *)
+Theorem scan_total : forall s,
+  (too_deep 100 0 s = true /\ scan s = PyErr E_BIBTEX (-1)) \/
+  (too_deep 100 0 s = false /\ exists ts, scan s = Ok ts).
+Proof. exact scan_total_lemma. Qed.
+Print Assumptions scan_total.
+
+(* ---- text length ---- *)
+
+(* bibtex_len counts the non-brace tokens of the scan: a special character is one token *)
+Theorem len_counts : forall s ts, scan s = Ok ts ->
+  bibtex_len s = Ok (length (filter (fun t => negb (tok_is_brace (fst t))) ts)).
+Proof. exact len_counts_lemma. Qed.
+Print Assumptions len_counts.
+
+(* ... and that number is BibTeX's text length (Spec): every character outside special
+   characters counts once unless it is a brace, a special character counts once *)
+Theorem len_spec : forall s n, bibtex_len s = Ok n -> n = text_len s.
+Proof. exact len_spec_lemma. Qed.
+Print Assumptions len_spec.
+
+(* ---- text prefix ---- *)
+
+(* the text prefix of n has text length min(n, length) -- for every string and every integer *)
+Theorem prefix_len : forall s n p m, bibtex_prefix s n = Ok p -> bibtex_len s = Ok m ->
+  bibtex_len p = Ok (Z.to_nat (Z.min n (Z.of_nat m))).
+Proof. exact prefix_len_lemma. Qed.
+Print Assumptions prefix_len.
+
+(* nothing for n <= 0 (not even a nesting error) *)
+Theorem prefix_nonpositive : forall s n, (n <= 0)%Z -> bibtex_prefix s n = Ok [].
+Proof. exact prefix_nonpos_lemma. Qed.
+Print Assumptions prefix_nonpositive.
+
+(* it is a prefix of the string followed by exactly as many closing braces as that prefix
+   leaves open.  FULL STATEMENT (all strings, k = cdepth_from 0 p) is refuted below; proved
+   for balanced strings *)
+Theorem prefix_shape_partial : forall s n out, balanced s -> bibtex_prefix s n = Ok out ->
+  exists p k, out = p ++ repeat c_rbrace k /\ is_prefix p s /\ depth_from 0 p = Some k.
+Proof. exact prefix_shape_lemma. Qed.
+Print Assumptions prefix_shape_partial.
+
+(* hence the prefix of a balanced string is balanced: it closes the braces it opened *)
+Theorem prefix_closes_partial : forall s n out, balanced s -> bibtex_prefix s n = Ok out -> balanced out.
+Proof. exact prefix_balanced_lemma. Qed.
+Print Assumptions prefix_closes_partial.
+
+(* finding C12-P1: on the unbalanced string "{\{" the prefix "{\{}" leaves a brace open *)
+Theorem prefix_closes_refuted : exists s n out, bibtex_prefix s n = Ok out /\ cdepth_from 0 out <> 0.
+Proof. exact prefix_closes_refuted_lemma. Qed.
+Print Assumptions prefix_closes_refuted.
+
+(* ---- substring ---- *)
+
+(* bibtex_substring is BibTeX's substring$ (Spec: 1-based, end-relative for a negative
+   start, clamped, empty for len <= 0 / start = 0 / |start| > |s|) -- all strings, all of Z *)
+Theorem substring_spec : forall s start len, bibtex_substring s start len = substring_spec s start len.
+Proof. exact substring_spec_lemma. Qed.
+Print Assumptions substring_spec.
 
 Theorem substring_zero : forall s l, bibtex_substring s 0 l = [].
 Proof. exact substring_start_zero. Qed.
 Print Assumptions substring_zero.
+
+Theorem substring_contiguous : forall s start len, exists a b, s = a ++ bibtex_substring s start len ++ b.
+Proof. exact substring_contiguous_lemma. Qed.
+Print Assumptions substring_contiguous.
+
+Theorem substring_length_le : forall s start len, length (bibtex_substring s start len) <= length s.
+Proof. exact substring_length_le_lemma. Qed.
+Print Assumptions substring_length_le.
+
+(* ---- purify ---- *)
+
+Theorem purify_alphabet : forall s p, bibtex_purify s = Ok p ->
+  Forall (fun c => is_alnum c || N.eqb c c_space = true) p.
+Proof. exact purify_alphabet_lemma. Qed.
+Print Assumptions purify_alphabet.
+
+Theorem purify_idem : forall s p, bibtex_purify s = Ok p -> bibtex_purify p = Ok p.
+Proof. exact purify_idem_lemma. Qed.
+Print Assumptions purify_idem.
+
+(* ---- non-vacuity ---- *)
+Example scan_example :
+  balanced (s2l "a{b{\c}}{\'e}f") /\
+  scan (s2l "a{b{\c}}{\'e}f") =
+    Ok [(s2l "a", 0); (s2l "{", 1); (s2l "b", 1); (s2l "{", 2); (s2l "\", 2); (s2l "c", 2); (s2l "}", 1); (s2l "}", 0);
+        (s2l "{", 1); (s2l "\'e", 1); (s2l "}", 0); (s2l "f", 0)].
+Proof. vm_compute. auto. Qed.
+Example scan_unbalanced_example :   (* why "on balanced input": the closing brace is not in the input *)
+  scan (s2l "{\a") = Ok [(s2l "{", 1); (s2l "\a", 1); (s2l "}", 0)].
+Proof. vm_compute. reflexivity. Qed.
+Example scan_too_deep_example :
+  too_deep 100 0 (repeat c_lbrace 101) = true /\ too_deep 100 0 (repeat c_lbrace 100) = false.
+Proof. vm_compute. auto. Qed.
+Example len_example : bibtex_len (s2l "de la Vall{\'e}e {P}oussin") = Ok 20 /\ bibtex_len (s2l "{\abc") = Ok 1.
+Proof. vm_compute. auto. Qed.
+Example prefix_example :
+  bibtex_prefix (s2l "ab{\cd}e") 3 = Ok (s2l "ab{\cd}") /\ bibtex_prefix (s2l "a{b{cd}}") 3 = Ok (s2l "a{b{c}}")
+  /\ balanced (s2l "a{b{cd}}") /\ bibtex_prefix (s2l "abc") 0 = Ok [] /\ bibtex_prefix [] 1 = Ok [].
+Proof. vm_compute. auto 6. Qed.
+Example substring_example :
+  bibtex_substring (s2l "abcdef") (-2) 3 = s2l "cde" /\ bibtex_substring (s2l "abc") (-1) 5 = s2l "abc"
+  /\ bibtex_substring (s2l "abc") (-10) 1 = [] /\ bibtex_substring (s2l "abcdef") 2 1000 = s2l "bcdef".
+Proof. vm_compute. auto. Qed.
+Example purify_example :
+  bibtex_purify (s2l "{\noopsort{1973a}}A-b~c, {\'E}!") = Ok (s2l "1973aA b c E").
+Proof. vm_compute. reflexivity. Qed.
